@@ -129,6 +129,12 @@ def check_history(res, history, label=''):
     def dom(e):
         return 'trace' if name(e) in TRACE_DOMAIN else 'ordinary'
 
+    def ambiguous(e):
+        # The quantifier distinguishes four kinds of codes: decodable, trace-domain, known-but-undecoded and unknown.  An
+        # id that the table does not name is 'unknown' even when it lies numerically inside the kernel's trace-data /
+        # trace-string subclasses, so it pairs in the ordinary domain; nothing is treated as ambiguous.
+        return False
+
     def decodable(e):
         return name(e) in handlers and name(e) is not None
 
@@ -180,9 +186,9 @@ def check_history(res, history, label=''):
                 res.violation('c04-no-trace-on-end', f'{where}: END with an open START (index {s}) produced no trace', case)
                 return False
             mandatory = [i for i in range(s, k + 1) if history[i].tid == e.tid and dom(history[i]) == dom(e)
-                         and not stray[i]]
-            optional = {i for i in range(s, k + 1) if history[i].tid == e.tid and dom(history[i]) == dom(e)
-                        and stray[i]}
+                         and not stray[i] and not (ambiguous(history[i]) and i not in (s, k))]
+            optional = {i for i in range(s, k + 1) if history[i].tid == e.tid and
+                        ((dom(history[i]) == dom(e) and stray[i]) or ambiguous(history[i]))}
             index_of = {id(x): i for i, x in enumerate(history)}
             try:
                 got = [index_of.get(id(x), -1) for x in t.ktraces]
